@@ -119,11 +119,15 @@ Definition powsum (p : nat) (a b : list Qc) : Qc := qsum (map (fun d => Qcpower 
 (* a user callable: weighted Manhattan *)
 Definition wmanhattan (w a b : list Qc) : Qc := qsum (vmul w (map Qcabs (vsub a b))).
 
-Inductive distk := DManhattan | DChebyshev | DEuclid | DPow (p : nat) | DCustom (w : list Qc).
+(* cosine: 1 - <a,b> / (|a| |b|); executed only on data whose norms are rational (exact root of perfect squares) *)
+Definition qsqrt (x : Qc) : Qc := Q2Qc (Z.sqrt (Qnum (this x)) # Pos.sqrt (Qden (this x))).
+Definition cosine (a b : list Qc) : Qc := 1 - dot a b / (qsqrt (dot a a) * qsqrt (dot b b)).
+
+Inductive distk := DManhattan | DChebyshev | DEuclid | DPow (p : nat) | DCustom (w : list Qc) | DCosine.
 Definition dist_of (d : distk) : list Qc -> list Qc -> Qc :=
   match d with
   | DManhattan => manhattan | DChebyshev => chebyshev | DEuclid => sqeuclid
-  | DPow p => powsum p | DCustom w => wmanhattan w
+  | DPow p => powsum p | DCustom w => wmanhattan w | DCosine => cosine
   end.
 
 (* projection family: space projection y_i = z_i + c_i z_i^2 with z = M x (None: identity);
